@@ -121,7 +121,9 @@ func (e *enc) callCommon(b *ssa.BasicBlock, ins ssa.Instruction, cc *ssa.CallCom
 		e.callOrd["dynamic"]++
 		e.countCall("dynamic")
 		if sig, ok := cc.Value.Type().Underlying().(*types.Signature); ok {
+			e.siteExtra = map[string]cval{"callee": {fv, e.sortOf(cc.Value.Type()), cc.Value.Type()}}
 			e.siteAsserts(ins, fmt.Sprintf("call %d of dynamic", e.callOrd["dynamic"]), sig, args, R)
+			e.siteExtra = nil
 		}
 		e.addI("safe", "nil-func", ins, R, fmt.Sprintf("(not (= %s 0))", fv))
 		havocRes()
